@@ -16,7 +16,21 @@
 // Phase 2 (samplers).  ONE FastGaussianNoise object shared by threads calling getNoise, while other threads sample
 //   polynomials (uniform, ZO, hwt, bounded, gaussian through the shared object).  TSan must stay silent:
 //       conc18s <T> <iterations> => <range-ok 0|1> <tsan-reports>
-// Environment: VERIF_SEED, VERIF_THREADS (T), VERIF_REQS (R per thread), VERIF_TIER.
+// Boundary mode (VERIF_BOUNDARY="<bit>:<reps>,…"; position in the process's history).  The nonce is a 64-bit counter of
+//   the requests made so far; an implementation may keep it in pieces (bytes, a ticket and an epoch, two 32-bit
+//   words, …), and then the requests that straddle a CARRY between the pieces are the ones at risk.  For every listed
+//   bit b and repetition: the main thread advances the generator with COUNTED silent requests (lengths 0 and 1) to
+//   just below the next multiple of 2^b (N0 = k·2^b − d, 1 ≤ d < N), makes one probe request (must be nonce N0−1: the
+//   count is right), then releases T threads whose N = T·R requests straddle the boundary.  Every block is identified
+//   among the reference keystreams of the nonce window [N0−1−δ, N0+N+δ] and of the same window shifted by ±2^b (a lost
+//   or doubled carry) and the history (probe + burst) must use exactly N0−1 … N0+N−1, each once.  Line:
+//       conc18b <T> <n0=N0−1> <N+1> <bit> <whitebox 0|1> => <randombytes-calls> <tsan-reports> (<thread> <nonce> <unique>)*(N+1)
+//   Black box: the advance is really performed (practical up to 2^24 ≈ 17 M requests per boundary, natively 0.3 s).
+//   White box (-DFRB_WHITEBOX: the repository's fastrandombytes.cpp is #included, as in harness/salsa.cpp): gaps
+//   above 2^16 are jumped by presetting the static `nonce` (a reachable state), which reaches 2^32 … 2^56 and the
+//   wrap 2^64.  If the repository's file has no such static any more this build does not compile and only the
+//   black-box boundaries remain.
+// Environment: VERIF_SEED, VERIF_THREADS (T), VERIF_REQS (R per thread), VERIF_TIER, VERIF_BOUNDARY.
 #include <atomic>
 #include <thread>
 #include <unordered_map>
@@ -37,6 +51,12 @@ void randombytes(unsigned char* x, unsigned long long n) {
   for (unsigned long long i = 0; i < n; i++) x[i] = g_key[i % 32];
 }
 }  // namespace nfl
+#ifdef FRB_WHITEBOX
+#include "fastrandombytes.cpp"  // the repository's file (found through -I<repo>/lib/prng): nfl::nonce can be preset
+#define WB 1
+#else
+#define WB 0
+#endif
 
 // ---- portable Salsa20/20 stream (D. J. Bernstein's reference construction): key 32 bytes, nonce 8 bytes,
 // ---- 64-bit little-endian block counter in input words 8,9
@@ -64,14 +84,14 @@ NOTSAN static void salsa20_block(unsigned char out[64], const unsigned char nonc
   }
   for (int i = 0; i < 16; i++) st32(out + 4 * i, x[i] + in[i]);
 }
-static const size_t kRefLen = 1024;  // >= the longest request
+static size_t kRefLen = 1024;  // >= the longest request (a multiple of 64)
 NOTSAN static void salsa20_stream(unsigned char* out, uint64_t nonce_val, const unsigned char k[32]) {
   unsigned char n[8];
   for (int i = 0; i < 8; i++) n[i] = (nonce_val >> (8 * i)) & 0xff;
   for (uint64_t b = 0; b < kRefLen / 64; b++) salsa20_block(out + 64 * b, n, b, k);
 }
 
-struct Req { unsigned len; std::vector<unsigned char> data; std::vector<uint32_t> cand; int64_t nonce = -1; };
+struct Req { unsigned len = 0; std::vector<unsigned char> data; std::vector<uint32_t> cand; int64_t nonce = -1; uint64_t nonce_val = 0; };
 
 // augmenting-path bipartite matching (requests with several candidates)
 static bool augment(size_t r, std::vector<Req*>& reqs, std::vector<int64_t>& owner, std::vector<char>& seen) {
@@ -83,15 +103,19 @@ static bool augment(size_t r, std::vector<Req*>& reqs, std::vector<int64_t>& own
   return false;
 }
 
-static int phase1(unsigned T, unsigned R, uint64_t seed) {
-  static const unsigned kLens[] = {8, 1, 64, 100, 1000, 8, 8, 3, 16, 65, 128, 2, 63};
-  std::vector<std::vector<Req>> per(T);
+// One burst: T threads released together, R requests each (lengths from `lens`).  `n0`/`N`: the history must use the
+// nonces n0 … n0+N-1 (mod 2^64); `pre` = requests already made by the main thread that belong to the history (the
+// probe of the boundary mode; thread index T).  `refNonce` = the nonces whose reference keystreams are computed.
+static int burst(const std::string& lhs, unsigned T, unsigned R, uint64_t seed, uint64_t n0, const std::vector<unsigned>& lens,
+                 bool first_fixed, std::vector<Req> pre, const std::vector<uint64_t>& refNonce) {
+  std::vector<std::vector<Req>> per(T + 1);
   for (unsigned i = 0; i < T; i++) {
     vh::Rng rng(seed * 7919 + i);
     per[i].resize(R);
-    for (auto& q : per[i]) { q.len = kLens[rng.below(sizeof(kLens) / sizeof(kLens[0]))]; q.data.assign(q.len, 0); }
-    if (R) per[i][0].len = (i % 2) ? 8 : 64, per[i][0].data.assign(per[i][0].len, 0);  // first requests: identifiable
+    for (auto& q : per[i]) { q.len = lens[rng.below(lens.size())]; q.data.assign(q.len, 0); }
+    if (R && first_fixed) per[i][0].len = (i % 2) ? 8 : 64, per[i][0].data.assign(per[i][0].len, 0);  // first requests: identifiable
   }
+  per[T] = std::move(pre);
   std::atomic<unsigned> ready{0};
   std::atomic<bool> go{false};
   std::vector<std::thread> th;
@@ -102,19 +126,21 @@ static int phase1(unsigned T, unsigned R, uint64_t seed) {
       for (auto& q : per[i]) nfl::fastrandombytes(q.data.data(), q.len);
     });
   while (ready.load() < T) std::this_thread::yield();
-  go.store(true, std::memory_order_release);   // no request has been made in this process so far
+  go.store(true, std::memory_order_release);   // (phase 1: no request has been made in this process so far)
   for (auto& t : th) t.join();
 
   // ---- identification
-  const size_t N = (size_t)T * R, K = N + 16;
+  const size_t N = (size_t)T * R + per[T].size(), K = refNonce.size();
+  auto in_window = [&](uint64_t nonce) { return (uint64_t)(nonce - n0) < (uint64_t)N; };
   std::vector<unsigned char> ref(K * kRefLen);
-  for (size_t k = 0; k < K; k++) salsa20_stream(&ref[k * kRefLen], k, g_key);
+  for (size_t k = 0; k < K; k++) salsa20_stream(&ref[k * kRefLen], refNonce[k], g_key);
   // the portable reference agrees with the assembly (called directly with explicit nonces; touches no generator state)
-  for (uint64_t k : {(uint64_t)0, (uint64_t)1, (uint64_t)(K - 1)}) {
-    unsigned char buf[kRefLen], n[8];
-    for (int i = 0; i < 8; i++) n[i] = (k >> (8 * i)) & 0xff;
-    nfl_crypto_stream_salsa20_amd64_xmm6(buf, kRefLen, n, g_key);
-    if (memcmp(buf, &ref[k * kRefLen], kRefLen)) { fprintf(stderr, "conc18: portable Salsa20 reference disagrees with the assembly at nonce %llu\n", (unsigned long long)k); return 3; }
+  for (size_t k : {(size_t)0, (size_t)1, K - 1}) {
+    std::vector<unsigned char> buf(kRefLen);
+    unsigned char n[8];
+    for (int i = 0; i < 8; i++) n[i] = (refNonce[k] >> (8 * i)) & 0xff;
+    nfl_crypto_stream_salsa20_amd64_xmm6(buf.data(), kRefLen, n, g_key);
+    if (memcmp(buf.data(), &ref[k * kRefLen], kRefLen)) { fprintf(stderr, "conc18: portable Salsa20 reference disagrees with the assembly at nonce %llu\n", (unsigned long long)refNonce[k]); return 3; }
   }
   std::unordered_map<uint64_t, std::vector<uint32_t>> by8;
   for (size_t k = 0; k < K; k++) { uint64_t h; memcpy(&h, &ref[k * kRefLen], 8); by8[h].push_back((uint32_t)k); }
@@ -130,22 +156,23 @@ static int phase1(unsigned T, unsigned R, uint64_t seed) {
       for (size_t k = 0; k < K; k++) if (!memcmp(&ref[k * kRefLen], q->data.data(), q->len)) q->cand.push_back((uint32_t)k);
     }
   }
-  // The property says the nonces are 0…N-1.  The 16 spare reference streams only serve to recognise blocks of a
-  // defective run; a block that also matches a nonce below N is never assigned a spare one.
+  // The property says the nonces are n0…n0+N-1.  The spare reference streams only serve to recognise blocks of a
+  // defective run; a block that also matches a nonce of the window is never assigned a spare one.
   for (Req* q : all) {
     std::vector<uint32_t> lo;
-    for (uint32_t k : q->cand) if (k < N) lo.push_back(k);
+    for (uint32_t k : q->cand) if (in_window(refNonce[k])) lo.push_back(k);
     if (!lo.empty()) q->cand.swap(lo);
   }
   std::vector<int64_t> owner(K, -1);
-  size_t unidentified = 0, dup = 0, unmatched = 0;
+  std::vector<int64_t> idx(all.size(), -1);      // request -> reference index
+  size_t unidentified = 0, dup = 0, unmatched = 0, outside = 0;
   // uniquely identified blocks first: two of them on one nonce = keystream reuse
   for (size_t r = 0; r < all.size(); r++) {
     Req* q = all[r];
     if (q->cand.empty()) { unidentified++; continue; }
     if (q->cand.size() == 1) {
       uint32_t k = q->cand[0];
-      q->nonce = k;
+      idx[r] = k;
       if (owner[k] >= 0) dup++; else owner[k] = (int64_t)r;
     }
   }
@@ -154,36 +181,131 @@ static int phase1(unsigned T, unsigned R, uint64_t seed) {
     if (q->cand.size() < 2) continue;
     std::vector<char> seen(K, 0);
     // uniquely owned nonces are not reassignable (their owners have a single candidate), augment() handles that
-    if (!augment(r, all, owner, seen)) { unmatched++; q->nonce = q->cand[0]; }
+    if (!augment(r, all, owner, seen)) { unmatched++; idx[r] = q->cand[0]; }
   }
-  for (size_t k = 0; k < K; k++) if (owner[k] >= 0 && all[(size_t)owner[k]]->cand.size() >= 2) all[(size_t)owner[k]]->nonce = (int64_t)k;
-  printf("conc18 %u 0 %zu => %d %d", T, N, g_seed_calls.load(), g_reports.load());
-  for (unsigned i = 0; i < T; i++)
-    for (auto& q : per[i])
-      printf(" %u %llu %d", i, q.nonce < 0 ? 18446744073709551615ULL : (unsigned long long)q.nonce, q.cand.size() == 1 ? 1 : 0);
+  for (size_t k = 0; k < K; k++) if (owner[k] >= 0 && all[(size_t)owner[k]]->cand.size() >= 2) idx[(size_t)owner[k]] = (int64_t)k;
+  for (size_t r = 0; r < all.size(); r++) {
+    all[r]->nonce = idx[r] < 0 ? -1 : 0;
+    all[r]->nonce_val = idx[r] < 0 ? 18446744073709551615ULL : refNonce[(size_t)idx[r]];
+  }
+  printf("%s => %d %d", lhs.c_str(), g_seed_calls.load(), g_reports.load());
+  // program order per thread; the main thread's probe (index T) precedes the burst
+  for (unsigned ii = 0; ii <= T; ii++) {
+    unsigned i = (ii + T) % (T + 1);
+    for (auto& q : per[i]) printf(" %u %llu %d", i, (unsigned long long)q.nonce_val, q.cand.size() == 1 ? 1 : 0);
+  }
   printf("\n");
   fflush(stdout);
-  {  // name the first reused nonces (uniquely identified blocks only) for the replay file
+  {  // name the first reused / foreign nonces (uniquely identified blocks only) for the replay file
     std::unordered_map<uint64_t, std::pair<unsigned, unsigned>> first;
     unsigned shown = 0;
-    for (unsigned i = 0; i < T && shown < 5; i++)
-      for (unsigned j = 0; j < per[i].size() && shown < 5; j++) {
+    for (unsigned i = 0; i <= T; i++)
+      for (unsigned j = 0; j < per[i].size(); j++) {
         Req& q = per[i][j];
         if (q.cand.size() != 1) continue;
-        auto it = first.find((uint64_t)q.nonce);
-        if (it == first.end()) first[(uint64_t)q.nonce] = {i, j};
-        else {
-          fprintf(stderr, "conc18: nonce %lld used twice: thread %u request %u (%u bytes) and thread %u request %u received the same keystream\n",
-                  (long long)q.nonce, it->second.first, it->second.second, q.len, i, j);
+        if (!in_window(q.nonce_val)) {
+          outside++;
+          if (shown < 5) {
+            long long off = (long long)(q.nonce_val - n0);
+            fprintf(stderr, "conc18: thread %u request %u (%u bytes) received the keystream of nonce %llu = n0%+lld, outside the window n0=%llu … n0+%zu of this history (a nonce of another epoch: reused or skipped)\n",
+                    i, j, q.len, (unsigned long long)q.nonce_val, off, (unsigned long long)n0, N - 1);
+            shown++;
+          }
+          continue;
+        }
+        auto it = first.find(q.nonce_val);
+        if (it == first.end()) first[q.nonce_val] = {i, j};
+        else if (shown < 5) {
+          fprintf(stderr, "conc18: nonce %llu used twice: thread %u request %u (%u bytes) and thread %u request %u received the same keystream\n",
+                  (unsigned long long)q.nonce_val, it->second.first, it->second.second, q.len, i, j);
           shown++;
         }
       }
   }
   if (g_seed_calls.load() != 1) fprintf(stderr, "conc18: randombytes (key seeding) was called %d times\n", g_seed_calls.load());
-  if (unidentified || dup || unmatched)
-    fprintf(stderr, "conc18: T=%u R=%u seed=%llu: %zu blocks match no reference keystream, %zu uniquely identified blocks reuse a nonce, %zu short blocks left without a distinct nonce\n",
-            T, R, (unsigned long long)seed, unidentified, dup, unmatched);
-  return (unidentified || dup || unmatched || g_seed_calls.load() != 1) ? 1 : 0;
+  if (unidentified || dup || unmatched || outside)
+    fprintf(stderr, "conc18: %s (T=%u R=%u seed=%llu): %zu blocks match no reference keystream, %zu uniquely identified blocks reuse a nonce, %zu blocks carry a nonce outside the window, %zu short blocks left without a distinct nonce\n",
+            lhs.c_str(), T, R, (unsigned long long)seed, unidentified, dup, outside, unmatched);
+  return (unidentified || dup || unmatched || outside || g_seed_calls.load() != 1) ? 1 : 0;
+}
+
+static int phase1(unsigned T, unsigned R, uint64_t seed) {
+  static const std::vector<unsigned> kLens = {8, 1, 64, 100, 1000, 8, 8, 3, 16, 65, 128, 2, 63};
+  const size_t N = (size_t)T * R;
+  std::vector<uint64_t> refs(N + 16);
+  for (size_t k = 0; k < refs.size(); k++) refs[k] = k;
+  char lhs[96];
+  snprintf(lhs, sizeof lhs, "conc18 %u 0 %zu", T, N);
+  return burst(lhs, T, R, seed, 0, kLens, true, {}, refs);
+}
+
+// ---- boundary mode: see the head of the file
+static int boundary_mode(unsigned T, uint64_t seed, const char* spec) {
+  static const std::vector<unsigned> kLens = {8, 16, 8, 32, 64, 8, 100, 128, 9};   // every block uniquely identifiable
+  kRefLen = 128;
+  unsigned R = (unsigned)vh::env_u64("VERIF_REQS", 40);
+  vh::Rng rng(seed * 181 + 81);
+  uint64_t issued = 0;   // requests made so far in this process = the value the 64-bit counter must have
+  int rc = 0;
+  std::vector<unsigned char> sink(8);
+  const char* p = spec;
+  while (*p) {
+    unsigned bit = 0, reps = 1;
+    int used = 0;
+    if (sscanf(p, "%u:%u%n", &bit, &reps, &used) < 2 || bit < 2 || bit > 64) { fprintf(stderr, "conc18: bad VERIF_BOUNDARY\n"); return 2; }
+    p += used;
+    if (*p == ',') p++;
+    for (unsigned rep = 0; rep < reps; rep++) {
+      const uint64_t N = (uint64_t)T * R;
+      const uint64_t B = bit == 64 ? 0 : (1ULL << bit);
+      uint64_t d = 1 + T / 2 + rng.below(N - T);                 // 1 <= d < N: the burst straddles the boundary
+      uint64_t target;                                           // a multiple of 2^bit with target - d - 1 >= issued
+      if (bit == 64) target = 0;
+      else target = ((issued + d + 1 + B - 1) / B) * B;
+      uint64_t N0 = target - d;                                  // (mod 2^64)
+      uint64_t gap = N0 - 1 - issued;                            // silent requests before the probe
+      if (gap > (1ULL << 16)) {
+#if WB
+        for (int i = 0; i < 8; i++) nfl::nonce[i] = (unsigned char)((N0 - 1) >> (8 * i));   // state injection: a reachable value
+        issued = N0 - 1;
+        gap = 0;
+#else
+        if (gap > (1ULL << 26)) { printf("# boundary 2^%u not reachable by a black-box advance (%llu requests)\n", bit, (unsigned long long)gap); continue; }
+#endif
+      }
+      for (uint64_t i = 0; i < gap; i++) nfl::fastrandombytes(sink.data(), (i & 15) == 7 ? 1 : 0);   // counted silent requests
+      issued += gap;
+      Req probe;
+      probe.len = 16;
+      probe.data.assign(16, 0);
+      nfl::fastrandombytes(probe.data.data(), probe.len);        // must be nonce N0-1
+      issued += 1;
+      const uint64_t delta = 24;
+      std::vector<uint64_t> refs;
+      for (uint64_t k = 0; k < N + 1 + 2 * delta; k++) refs.push_back(N0 - 1 - delta + k);
+      if (bit < 64) {
+        size_t base = refs.size();
+        for (size_t k = 0; k < base; k++) refs.push_back(refs[k] - B);   // a new ticket paired with the old epoch
+        for (size_t k = 0; k < base; k++) refs.push_back(refs[k] + B);   // an old ticket paired with the new epoch
+        if (bit > 8) for (size_t k = 0; k < base; k++) { refs.push_back(refs[k] - (B >> 8)); refs.push_back(refs[k] + (B >> 8)); }
+      }
+      {  // (for small bits the shifted windows overlap the window itself: every nonce once)
+        std::vector<uint64_t> u;
+        std::unordered_map<uint64_t, char> seen;
+        for (uint64_t v : refs) if (!seen.count(v)) { seen[v] = 1; u.push_back(v); }
+        refs.swap(u);
+      }
+      char lhs[128];
+      snprintf(lhs, sizeof lhs, "conc18b %u %llu %llu %u %d", T, (unsigned long long)(N0 - 1), (unsigned long long)(N + 1), bit, WB);
+      std::vector<Req> pre;
+      pre.push_back(std::move(probe));
+      int r = burst(lhs, T, R, seed * 31 + rep * 7 + bit, N0 - 1, kLens, false, std::move(pre), refs);
+      if (r == 3) return 3;
+      rc |= r;
+      issued += N;
+    }
+  }
+  return rc;
 }
 
 template <class P> static bool in_range(P const& p) {
@@ -235,6 +357,8 @@ int main() {
   unsigned R = (unsigned)vh::env_u64("VERIF_REQS", vh::thorough() ? 800 : 300);
   vh::Rng kr(seed * 1818 + 18);
   for (auto& b : g_key) b = (unsigned char)kr.next();
+  const char* bspec = getenv("VERIF_BOUNDARY");
+  if (bspec && *bspec) return boundary_mode(T, seed, bspec);
   int rc = phase1(T, R, seed);
   if (rc == 3) return 3;
   rc |= phase2(T < 4 ? 4 : T, vh::thorough() ? 600 : 120);
